@@ -273,7 +273,12 @@ pub fn replay_schedules() {
                             }
                             Ok(ok)
                         });
-                        if !matches!(guard.result, Ok(Ok(true))) { sum.count("c10_intermediate_not_round_trippable", 1); continue; }
+                        if !matches!(guard.result, Ok(Ok(true))) {
+                            sum.count("c10_intermediate_not_round_trippable", 1);
+                            let ex = sum.extra.entry("c10_guard_examples").or_insert(json!([]));
+                            if ex.as_array().unwrap().len() < 12 { ex.as_array_mut().unwrap().push(json!({"rules": rules[..k].to_vec(), "word": line, "intermediate": format!("{:?}", pre)})); }
+                            continue;
+                        }
                     }
                     let staged = match &pre {
                         Ok(mid) if mid.iter().any(|s| s.contains('\u{FFFD}')) => { sum.count("c10_unrenderable_intermediate", 1); continue; }
@@ -296,7 +301,14 @@ pub fn replay_schedules() {
                     let mut sizes = vec![0usize; ng];
                     for _ in 0..rules.len() { sizes[rng.below(ng)] += 1; }
                     let groups = group_by(&rules, &sizes);
-                    let lines: Vec<String> = (0..n).map(|_| { let mut l = rng.pick(&words).clone(); if rng.chance(1, 3) { l = format!("{} {}", l, rng.pick(&words)); } l }).collect();
+                    let mut lines: Vec<String> = (0..n).map(|_| { let mut l = rng.pick(&words).clone(); if rng.chance(1, 3) { l = format!("{} {}", l, rng.pick(&words)); } l }).collect();
+                    // notation twins: the same word typed in americanist and in IPA notation, next to each other (in one line or in adjacent lines)
+                    if into.is_empty() && rng.chance(1, 4) {
+                        const TWINS: [(&str, &str); 5] = [("¢a", "t͡sa"), ("ła.ta", "ɬa.ta"), ("ña", "ɲa"), ("aƛ", "at͡ɬ"), ("λo", "d͡ɮo")];
+                        let (a, b) = *rng.pick(&TWINS[..]);
+                        let (x, y) = if rng.chance(1, 2) { (a, b) } else { (b, a) };
+                        if n >= 2 && rng.chance(1, 2) { let i = rng.below(n - 1); lines[i] = x.to_string(); lines[i + 1] = y.to_string(); } else { let i = rng.below(n); lines[i] = format!("{x} {y}"); }
+                    }
                     let full = run_keyed(&groups, &lines, &into);
                     let singles: Vec<Result<Vec<String>, String>> = lines.iter().map(|l| run_keyed(&groups, &[l.clone()], &into)).collect();
                     let perm: Vec<usize> = usizes(&vec["perm"]).iter().map(|p| p - 1).collect();
